@@ -23,7 +23,10 @@ order, with times) and whether the loop is still running are compared with the m
 Direct oracle (real code only): a reference map written from the statement.
 """
 import errno
+import logging
 import socket
+import threading
+import warnings
 import time as _walltime
 from fractions import Fraction
 
@@ -100,6 +103,26 @@ class NullLogger:
     def _n(self, *a, **k):
         pass
     debug = info = warn = warning = error = exception = critical = _n
+
+
+class _Sink(logging.Handler):
+    """formats every record (so that a bad format string would show) and keeps nothing"""
+    errors = 0
+
+    def emit(self, record):
+        self.format(record)
+
+    def handleError(self, record):
+        _Sink.errors += 1
+
+
+def real_logger():
+    """a genuine logging.Logger, as the registry gets in production (`logging.getLogger(...)`), at DEBUG level"""
+    lg = logging.Logger("rpyc-verif-c18", level=logging.DEBUG)
+    h = _Sink()
+    h.setFormatter(logging.Formatter("%(levelname)s %(message)s"))
+    lg.addHandler(h)
+    return lg
 
 
 _CLASSES = {}
@@ -263,8 +286,14 @@ def snapshot(services):
                               for a, t in inner.items())) for name, inner in services.items())
 
 
-def run_real(mode, pruning_ms, fd_limit, events, cb_raises=False):
+def run_real(mode, pruning_ms, fd_limit, events, cb_raises=False, real_log=False):
     """run the real `_work` over the history; returns the list of per-event records"""
+    with warnings.catch_warnings():
+        warnings.simplefilter("ignore", DeprecationWarning)      # Logger.warn
+        return _run_real(mode, pruning_ms, fd_limit, events, cb_raises, real_log)
+
+
+def _run_real(mode, pruning_ms, fd_limit, events, cb_raises, real_log):
     r = reg()
     cls = classes()[mode]
     clock = Clock()
@@ -273,7 +302,7 @@ def run_real(mode, pruning_ms, fd_limit, events, cb_raises=False):
     srv.notes, srv.cb_raises, srv.script = [], cb_raises, script
     sock = FakeUdpSock(script) if mode != "tcp" else FakeListener(script, fd_limit)
     pruning = None if pruning_ms is None else Fraction(pruning_ms, 1000)
-    r.RegistryServer.__init__(srv, sock, pruning_timeout=pruning, logger=NullLogger())
+    r.RegistryServer.__init__(srv, sock, pruning_timeout=pruning, logger=real_logger() if real_log else NullLogger())
     if mode == "tcp":
         srv._connected_sockets = {}
     script.srv = srv
@@ -321,6 +350,180 @@ def impl_value(mode, records):
         if not rec["alive"]:
             break
     return tuple(out)
+
+
+# ------------------------------------------------------------------------------------------ the real servers on real sockets
+def real_classes():
+    """recording subclasses of the real UDP / TCP servers, constructed the normal way (sockets, bind, listen, settimeout)"""
+    r = reg()
+    if _CLASSES.get("real-module") is r:
+        return _CLASSES
+    base = classes()["udp"].__mro__[1]      # the recording mix-in
+
+    class RUdp(base, r.UDPRegistryServer):
+        notes, cb_raises = (), False
+
+    class RTcp(base, r.TCPRegistryServer):
+        notes, cb_raises = (), False
+    _CLASSES.update({"real-module": r, "real-udp": RUdp, "real-tcp": RTcp})
+    return _CLASSES
+
+
+SYNC = None
+
+
+def run_real_sockets(mode, pruning_ms, payloads):
+    """the real `UDPRegistryServer` / `TCPRegistryServer`, built by its own __init__ on 127.0.0.1:0 and run by `start()`
+    in a thread, driven through real sockets; payload None = a TCP client that sends nothing.  The clock inside the
+    registry module is virtual and stands still.  Returns (records, died) in the shape of `run_real`."""
+    r, b = reg(), brine()
+    cls = real_classes()["real-" + mode]
+    clock = Clock()
+    clock.ms = 5000
+    saved = r.time
+    r.time = clock
+    recs = []
+    try:
+        srv = cls(host="127.0.0.1", port=0, pruning_timeout=Fraction(pruning_ms, 1000), logger=real_logger())
+        srv.notes = []
+        th = threading.Thread(target=srv.start, daemon=True)
+        with warnings.catch_warnings():
+            warnings.simplefilter("ignore", DeprecationWarning)
+            th.start()
+            addr = ("127.0.0.1", srv.port)
+            deadline = _walltime.time() + 2
+            while not srv.active and _walltime.time() < deadline:
+                _walltime.sleep(0.005)
+            sync = b.dump(("RPYC", "QUERY", ("__no_such_service__",)))
+            a = s2 = None
+            if mode == "udp":
+                a = socket.socket(socket.AF_INET, socket.SOCK_DGRAM)
+                s2 = socket.socket(socket.AF_INET, socket.SOCK_DGRAM)
+                a.bind(("127.0.0.1", 0))
+                s2.bind(("127.0.0.1", 0))
+                s2.settimeout(4)
+                a.settimeout(0.001)
+            for data in payloads:
+                n0 = len(srv.notes)
+                rec = dict(kind="d" if mode == "udp" else ("s" if data is None else "c"), alive=True, hang=False, accepted=True,
+                           reply=None, elapsed=0, tracked=0, open=0)
+                if mode == "udp":
+                    a.sendto(data, addr)
+                    s2.sendto(sync, addr)       # answered after `data` has been dealt with: the loop is sequential
+                    try:
+                        s2.recvfrom(65535)
+                    except socket.timeout:
+                        rec["alive"] = False
+                    try:
+                        rec["reply"] = a.recvfrom(65535)[0]
+                    except (socket.timeout, BlockingIOError):
+                        pass
+                else:
+                    t0 = _walltime.time()
+                    c = socket.create_connection(addr, timeout=8)
+                    try:
+                        if data is not None:
+                            if data:
+                                c.sendall(data)
+                            c.shutdown(socket.SHUT_WR)
+                        got = b""
+                        while True:           # until the registry closes the connection (after its reply, or unanswered)
+                            try:
+                                chunk = c.recv(65535)
+                            except socket.timeout:
+                                rec["alive"] = False
+                                break
+                            if not chunk:
+                                break
+                            got += chunk
+                        rec["reply"] = got or None
+                        rec["wall"] = _walltime.time() - t0
+                    finally:
+                        c.close()
+                    # the next accept proves the loop got back to `_recv`
+                rec["notes"] = tuple((k, n, x[0], x[1]) for k, n, x in srv.notes[n0:])
+                rec["services"] = snapshot(srv.services)
+                recs.append(rec)
+                if not rec["alive"]:
+                    break
+            for x in (a, s2):
+                if x is not None:
+                    x.close()
+            try:
+                srv.close()
+            except ValueError:
+                pass
+            if mode == "tcp":
+                try:
+                    socket.create_connection(addr, timeout=1).close()      # wake `accept`
+                except OSError:
+                    pass
+            th.join(5)
+    finally:
+        r.time = saved
+    return recs
+
+
+def real_socket_cases(ctx, r):
+    pool = wellformed_pool(r)
+    out = []
+    for k in range(ctx.budget(3, 12)):
+        pay = [cmd_register(["calc", "Db"], 18812), cmd_register(["CALC"], 7), cmd_query("calc")]
+        pay += [r.choice(pool) if r.chance(2, 3) else garbage(r) for _ in range(r.range(6, 14))]
+        pay += [cmd_query("CALC"), cmd_unregister(7), cmd_query("calc")]
+        out.append(("udp", 10000, pay))
+    for k in range(ctx.budget(2, 8)):
+        pay = [cmd_register(["calc", "Db"], 18812), dump(("RPYX", "QUERY", ("calc",))), b"", cmd_query("calc")]
+        pay += [r.choice(pool) if r.chance(2, 3) else garbage(r) for _ in range(r.range(3, 8))]
+        if k == 0:
+            pay += [None]                  # one silent client: costs the real TIMEOUT
+        pay += [cmd_query("CALC"), b"\xff\xff", cmd_unregister(18812), cmd_query("calc")]
+        out.append(("tcp", 10000, pay))
+    return out
+
+
+def real_socket_correspondence(ctx, c, r):
+    """a handful of histories on the real servers over real loopback sockets against the model"""
+    R = reg()
+    tcp_timeout = R.TCPRegistryServer.TIMEOUT
+    for mode, pruning, pay in real_socket_cases(ctx, r):
+        try:
+            recs = run_real_sockets(mode, pruning, pay)
+        except OSError as ex:
+            c.count("skipped:real-sockets-unavailable(%s)" % type(ex).__name__)
+            continue
+        events = [("t", 5000)]
+        for k, d in enumerate(pay):
+            if mode == "udp":
+                events.append(("d", "127.0.0.1", d))
+            elif d is None:
+                events += [("s", k, "127.0.0.1"), ("t", 5000)]
+            else:
+                events.append(("c", k, "127.0.0.1", d))
+        line = run_driver([op_line(mode, pruning, 1000, events)], exe="drv_registry")[0]
+        if line in ("not-modelled", "bad-op"):
+            c.count("skipped:real-sockets-" + line)
+            continue
+        mv = valtext.from_text(line)
+        if mode == "tcp":
+            mv = tuple(x[3:] for x in mv)
+        for rec in recs:
+            rec.setdefault("hang", False)
+        iv = impl_value("udp", recs)
+        c.evaluations += len(recs)
+        c.count("real-sockets:%s-events" % mode, len(recs))
+        ok = valtext.canon(mv) == valtext.canon(iv)
+        for rec in recs:
+            if rec["kind"] == "s":
+                c.count("real-sockets:tcp-silent-client")
+                if not (tcp_timeout - 0.5 <= rec.get("wall", 0) <= tcp_timeout + 2.0):
+                    ok = False
+        c.signatures.add("real-sockets:%s:%d" % (mode, min(len(recs), 12)))
+        if not ok:
+            c.disagreements.append(dict(case=dict(kind="real-sockets", mode=mode, pruning_ms=pruning, fd_limit=1000,
+                                                  events=enc_events(events)),
+                                        impl=valtext.canon(iv)[-700:], model=valtext.canon(mv)[-700:],
+                                        walls=[round(rec.get("wall", 0), 2) for rec in recs], source="real-sockets"))
 
 
 # ------------------------------------------------------------------------------------------ op lines for the model
@@ -405,7 +608,8 @@ HOSTS = ["10.0.0.1", "10.0.0.2", "fe80::1", "h"]
 PORTS = [18812, 18813, 7, 0]
 ALIASES = ["calc", "CALC", "Calc", "db", "Db", "x", "svc.v2", "été", "straße", "ǆ", "ı", "i", "",
            "MASTER", "master"]
-PRUNINGS = [3000, 10000, 10000, None, 1, 0]
+PRUNINGS = [3000, 10000, 10000, None, 1, 0, -1000]
+ODD_HOSTS = [None, 5, b"h", ("a", 1), 2.5, ""]          # what a transport never reports; the code only stores and returns it
 
 
 def dump(v):
@@ -460,6 +664,8 @@ def gen_history(r, mode):
     pr = pruning if pruning is not None else int(reg().DEFAULT_PRUNING_TIMEOUT * 1000)
     fd_limit = r.choice([1000, 1000, 1000, 3, 2, 1]) if mode == "tcp" else 1000
     hosts = HOSTS[:r.range(1, len(HOSTS))]
+    if mode == "base" and r.chance(1, 6):
+        hosts = hosts[:2] + [r.choice(ODD_HOSTS), r.choice(ODD_HOSTS)]
     ports = PORTS[:r.range(1, len(PORTS))]
     aliases = [r.choice(ALIASES) for _ in range(r.range(1, 5))]
     events, meaning = [], []
@@ -492,7 +698,7 @@ def gen_history(r, mode):
             name = case_variant(r, r.choice(aliases))
             emit(host, cmd_query(name), dict(kind="query", host=host, name=name))
         elif k < 18:
-            now += r.choice([0, 1, 999, 1000, 2000, pr - 1, pr, pr + 1, pr // 2, 2 * pr + 5, 1, 1000])
+            now += r.choice([0, 1, 999, 1000, 2000, pr - 1, pr, pr + 1, pr // 2, 2 * pr + 5, 1, 1000, -1, -1000, -pr, -3 * abs(pr) - 7])
             events.append(("t", now))
             meaning.append(dict(kind="clock", now=now))
         elif k == 18 and mode == "tcp":
@@ -542,6 +748,32 @@ def shaped_datagrams(r, shapes):
     return out
 
 
+def has_nan(v):
+    t = type(v)
+    if t is float:
+        return v != v
+    if t is complex:
+        return v.real != v.real or v.imag != v.imag
+    if t in (tuple, frozenset):
+        return any(has_nan(x) for x in v)
+    if t is slice:
+        return has_nan(v.start) or has_nan(v.stop) or has_nan(v.step)
+    return False
+
+
+def host_shape_cases(r, shapes):
+    """every value shape as the HOST the transport reports (base class only: a real transport reports text)"""
+    hosts = [v for v in shapes if not has_nan(v) and len(dump(v)) <= 200]
+    out = []
+    for i in range(0, len(hosts), 12):
+        ev = [("t", 1000), ("d", "10.0.0.1", cmd_register(["calc"], 7))]
+        for h in hosts[i:i + 12]:
+            ev += [("d", h, cmd_register(["calc", "db"], 7)), ("d", h, cmd_query("CALC")), ("d", h, cmd_register(["calc"], 7)),
+                   ("d", h, cmd_unregister(7)), ("d", h, cmd_query("db"))]
+        out.append(ev)
+    return out
+
+
 def wellformed_pool(r):
     out = []
     for _ in range(60):
@@ -581,7 +813,7 @@ def datagram_corpus(ctx, r):
     big = dump(("RPYC", "REGISTER", (("a" * 1490,), 18812)))
     out += [big, big[:1500], dump(("RPYC", "REGISTER", (("calc",) + ("x" * 200,) * 7, 18812))), b"\x00" * 1501,
             dump(("RPYC", "QUERY", ("c" * 1600,)))]
-    return out, exhaustive2
+    return out, exhaustive2, shapes
 
 
 # ------------------------------------------------------------------------------------------ correspondence
@@ -614,8 +846,8 @@ def classify(mode, data):
     return cmd.lower()
 
 
-def run_case(mode, pruning, fd_limit, events, cb_raises=False):
-    recs = run_real(mode, pruning, fd_limit, events, cb_raises)
+def run_case(mode, pruning, fd_limit, events, cb_raises=False, real_log=False):
+    recs = run_real(mode, pruning, fd_limit, events, cb_raises, real_log)
     return recs, valtext.canon(impl_value(mode, recs))
 
 
@@ -645,8 +877,10 @@ def correspondence(ctx):
     for i in range(ctx.budget(2100, 30000)):
         mode = ("base", "udp", "tcp")[i % 3]
         pruning, fd_limit, events, _m = gen_history(r, mode)
-        cases.append(("history", mode, pruning, fd_limit, events, r.chance(1, 5)))
-    corpus, exhaustive2 = datagram_corpus(ctx, r)
+        cases.append(("history", mode, pruning, fd_limit, events, r.chance(1, 5), i % 4 == 1))
+    corpus, exhaustive2, shapes = datagram_corpus(ctx, r)
+    for ev in host_shape_cases(r, shapes):
+        cases.append(("host-shapes", "base", 10000, 1000, ev, False, False))
     n_dgrams = len(corpus)
     batch = 40
     for i in range(0, len(corpus), batch):
@@ -658,17 +892,20 @@ def correspondence(ctx):
             ev = [e if e[0] == "t" else ("c", 900 + k, e[1], e[2]) for k, e in enumerate(ev)]
             ev += [("c", k, HOSTS[k % 3], d) for k, d in enumerate(chunk)]
         else:
-            ev += [("d", HOSTS[k % 3], d) for k, d in enumerate(chunk)]
-        cases.append(("datagrams", mode, pruning, 1000, ev, False))
+            odd = mode == "base" and (i // batch) % 6 == 0
+            ev += [("d", ODD_HOSTS[k % len(ODD_HOSTS)] if odd and k % 3 == 0 else HOSTS[k % 3], d) for k, d in enumerate(chunk)]
+        cases.append(("datagrams", mode, pruning, 1000, ev, False, (i // batch) % 4 == 2))
     lines, impl = [], []
-    for tag, mode, pruning, fd_limit, events, cb in cases:
+    for tag, mode, pruning, fd_limit, events, cb, real_log in cases:
         try:
-            recs, want = run_case(mode, pruning, fd_limit, events, cb)
+            recs, want = run_case(mode, pruning, fd_limit, events, cb, real_log)
         except RecursionError:
             c.count("skipped:recursion-in-harness")
             continue
         lines.append(op_line(mode, pruning, fd_limit, events))
         impl.append((tag, mode, pruning, fd_limit, events, recs, want))
+        if real_log:
+            c.count("run-with-real-logging.Logger")
     ctx.log("real code: %d histories, %d datagrams in %.1fs" % (len([x for x in cases if x[0] == "history"]), n_dgrams,
                                                               _walltime.time() - t0))
     try:
@@ -695,8 +932,21 @@ def correspondence(ctx):
                                                           events=enc_events(cut)), impl=w[-600:], model=g[-600:]))
                     break
             continue
-        for rec, e in zip(recs, evs):
+        prev_snap = repr(())
+        for k_ev, (rec, e) in enumerate(zip(recs, evs)):
             c.evaluations += 1
+            snap_now = repr(rec["services"])
+            if rec["reply"] is None and rec["alive"] and rec["accepted"]:
+                # a datagram that was not answered was refused: it must have left no trace at all
+                if snap_now != prev_snap or rec["notes"]:
+                    c.count("REFUSED-DATAGRAM-LEFT-RESIDUE")
+                    c.disagreements.append(dict(case=dict(kind="history", mode=mode, pruning_ms=pruning, fd_limit=fd_limit,
+                                                          events=enc_events(cut_events(events, k_ev))),
+                                                impl="refused datagram changed the table: %s -> %s" % (prev_snap[-300:], snap_now[-300:]),
+                                                model="(a refused datagram changes nothing)", source=tag))
+                else:
+                    c.count("refused:no-trace")
+            prev_snap = snap_now
             data = e[2] if e[0] == "d" else e[3] if e[0] == "c" else None
             br = "silent-client" if data is None else classify(mode, data)
             c.count("%s:%s" % (mode, br))
@@ -716,6 +966,11 @@ def correspondence(ctx):
                                         impl=want[-600:], model=got[-600:], source=tag))
         elif len(c.samples) < 12 and (len(lines) < 12 or c.evaluations % 1013 < 25):
             c.samples.append(dict(mode=mode, events=enc_events(events)[:6], outcome=want[:300]))
+    try:
+        real_socket_correspondence(ctx, c, r)
+    except DriverError as ex:
+        c.error = str(ex)
+        return c
     c.extra["observations"] = [
         "outside the statement (it is about the registry's answer, which is correct here) and assumed away: a reply is one "
         "datagram / one recv(MAX_DGRAM_SIZE) on the client side; with about 76 or more servers under one name (reply > 1500 "
@@ -865,6 +1120,9 @@ def oracle_history(mode, pruning, fd_limit, events, meaning):
         before = ref.table()
         prev_snap, snap_now = snap, repr(rec["services"])
         snap = snap_now
+        if rec["reply"] is None and (snap_now != prev_snap or rec["notes"]):
+            return ("event %d (%s): a datagram that was refused (no answer) changed the table: %s -> %s, notifications %r"
+                    % (k - 1, m["kind"], prev_snap[-200:], snap_now[-200:], rec["notes"]), "refused-datagram-altered")
         reply = None
         if rec["reply"] is not None:
             try:
